@@ -427,25 +427,44 @@ int32_t tls13Verify(psPool_t *pool,
 
     /* Translate TLS 1.3 signature algorithm encoding to what
        our crypto layer uses. */
+    /* The SignatureScheme named by the peer must fit the key of its
+       certificate: the scheme field is attacker-controlled, the key type
+       decides which member of the key union is valid. */
     switch (sigAlg)
     {
 #  ifdef USE_ECC
     case sigalg_ecdsa_secp256r1_sha256:
         cryptoLayerSigAlg = OID_SHA256_ECDSA_SIG;
-        psAssert(pubKey->key.ecc.curve->curveId == IANA_SECP256R1);
+        if (pubKey->type != PS_ECC || pubKey->key.ecc.curve == NULL ||
+            pubKey->key.ecc.curve->curveId != IANA_SECP256R1)
+        {
+            goto out_key_mismatch;
+        }
         break;
     case sigalg_ecdsa_secp384r1_sha384:
         cryptoLayerSigAlg = OID_SHA384_ECDSA_SIG;
-        psAssert(pubKey->key.ecc.curve->curveId == IANA_SECP384R1);
+        if (pubKey->type != PS_ECC || pubKey->key.ecc.curve == NULL ||
+            pubKey->key.ecc.curve->curveId != IANA_SECP384R1)
+        {
+            goto out_key_mismatch;
+        }
         break;
     case sigalg_ecdsa_secp521r1_sha512:
         cryptoLayerSigAlg = OID_SHA512_ECDSA_SIG;
-        psAssert(pubKey->key.ecc.curve->curveId == IANA_SECP521R1);
+        if (pubKey->type != PS_ECC || pubKey->key.ecc.curve == NULL ||
+            pubKey->key.ecc.curve->curveId != IANA_SECP521R1)
+        {
+            goto out_key_mismatch;
+        }
         break;
 #  endif
 #  ifdef USE_RSA
     case sigalg_rsa_pss_pss_sha256:
     case sigalg_rsa_pss_rsae_sha256:
+        if (pubKey->type != PS_RSA)
+        {
+            goto out_key_mismatch;
+        }
         cryptoLayerSigAlg = OID_SHA256_RSA_SIG;
         opts.rsaPssHashAlg = PKCS1_SHA256_ID;
         opts.rsaPssSaltLen = SHA256_HASH_SIZE;
@@ -453,6 +472,10 @@ int32_t tls13Verify(psPool_t *pool,
         break;
     case sigalg_rsa_pss_pss_sha384:
     case sigalg_rsa_pss_rsae_sha384:
+        if (pubKey->type != PS_RSA)
+        {
+            goto out_key_mismatch;
+        }
         cryptoLayerSigAlg = OID_SHA384_RSA_SIG;
         opts.rsaPssHashAlg = PKCS1_SHA384_ID;
         opts.rsaPssSaltLen = SHA384_HASH_SIZE;
@@ -460,6 +483,10 @@ int32_t tls13Verify(psPool_t *pool,
         break;
     case sigalg_rsa_pss_pss_sha512:
     case sigalg_rsa_pss_rsae_sha512:
+        if (pubKey->type != PS_RSA)
+        {
+            goto out_key_mismatch;
+        }
         cryptoLayerSigAlg = OID_SHA512_RSA_SIG;
         opts.rsaPssHashAlg = PKCS1_SHA512_ID;
         opts.rsaPssSaltLen = SHA512_HASH_SIZE;
@@ -469,11 +496,19 @@ int32_t tls13Verify(psPool_t *pool,
 #ifdef USE_ED25519
     case sigalg_ed25519:
         cryptoLayerSigAlg = OID_ED25519_KEY_ALG;
-        psAssert(pubKey->type == PS_ED25519);
+        if (pubKey->type != PS_ED25519)
+        {
+            goto out_key_mismatch;
+        }
         break;
 #endif
     default:
         psTraceIntInfo("Unsupported sig alg in tls13Verify: %u\n",
+                sigAlg);
+        psFree(tbs, pool);
+        return PS_UNSUPPORTED_FAIL;
+out_key_mismatch:
+        psTraceIntInfo("Signature scheme %u does not fit the peer's key\n",
                 sigAlg);
         psFree(tbs, pool);
         return PS_UNSUPPORTED_FAIL;
